@@ -60,7 +60,7 @@ func init() {
 	Registry["C09"] = func(c *Ctx) {
 		r := c.R
 		r.NotDecided = append(r.NotDecided, "parse(marshal(x)) == x over each header grammar (value-level)")
-		r.Rule("C09/ORDER", "no parser or marshaller of pkg/headers, pkg/mikey, pkg/auth, pkg/base lets a value or a reported failure depend on map iteration order (every range over a map is order-independent or sorted)", 3)
+		r.Rule("C09/ORDER", "no parser or marshaller of pkg/headers, pkg/mikey, pkg/auth, pkg/base lets a value or a reported failure depend on map iteration order (every range over a map is order-independent or sorted)", 0)
 		mapOrderRule(c, "C09/ORDER", []string{"pkg/headers", "pkg/mikey", "pkg/auth", "pkg/base"}, true)
 
 		c09FreeText(c)
